@@ -1127,7 +1127,7 @@ func (ev *evaluator) stringLib(s *Sym) (val, bool) {
 			}
 			return val{k: 'l', list: l[lo:hi]}, true
 		}
-		if s.Kids[0].Kind == "string" {
+		if s.Kids[0].Kind == "string" || s.Kids[0].Op == "pred" || (ev.kinds != nil && ev.kinds[ev.baseKey(s.Kids[0])] == "string") {
 			x := str(0)
 			if lo < 0 || hi > int64(len(x)) || lo > hi {
 				return val{k: 'o'}, true
@@ -1274,6 +1274,7 @@ func compareSyms(a, b *Sym, hint string) cmpResult {
 	}
 	names := sortedKeys(terms)
 	// candidate sets
+	prio := map[string][]val{}
 	cands := make([][]val, len(names))
 	total := 1.0
 	for i, n := range names {
@@ -1296,6 +1297,22 @@ func compareSyms(a, b *Sym, hint string) cmpResult {
 			for _, s := range list {
 				cands[i] = append(cands[i], val{k: 's', s: s})
 			}
+			// the exact literals first: the values at which conjunctions over several terms flip
+			pr := []val{{k: 's', s: ""}, {k: 's', s: "q"}}
+			var exact []string
+			for l := range mine {
+				exact = append(exact, l)
+			}
+			if len(mine) == 0 {
+				for l := range strs {
+					exact = append(exact, l)
+				}
+			}
+			sort.Strings(exact)
+			for _, l := range exact {
+				pr = append(pr, val{k: 's', s: l})
+			}
+			prio[n] = pr
 		case "bool":
 			cands[i] = []val{{k: 'b', b: false}, {k: 'b', b: true}}
 		default:
@@ -1332,7 +1349,7 @@ func compareSyms(a, b *Sym, hint string) cmpResult {
 	// bound the product deterministically: shrink the largest candidate sets (keep boundary values)
 	const limit = 60000
 	if total > limit {
-		return comparePairwise(a, b, hint, names, cands, e, kinds)
+		return comparePairwise(a, b, hint, names, cands, e, kinds, prio)
 	}
 	for total > limit {
 		big := 0
@@ -1469,7 +1486,7 @@ func project(x *Sym, i int) *Sym {
 
 // comparePairwise: when the full product of candidates is too large, every pair of base terms is enumerated
 // completely while the remaining terms are held at each of three base points (first, middle, last candidate).
-func comparePairwise(a, b *Sym, hint string, names []string, cands [][]val, e env, kinds map[string]string) cmpResult {
+func comparePairwise(a, b *Sym, hint string, names []string, cands [][]val, e env, kinds map[string]string, prio map[string][]val) cmpResult {
 	res := cmpResult{Equal: true, Terms: names, Truncated: true}
 	bases := [][]int{}
 	for _, pick := range []int{0, 1, 2} {
@@ -1530,6 +1547,66 @@ func comparePairwise(a, b *Sym, hint string, names []string, cands [][]val, e en
 				}
 			}
 		}
+	}
+	// second phase: the complete product over a reduced candidate set per term — the exact literals the term is compared
+	// with (where conjunctions over several terms flip), both booleans, boundary integers. Variants of the literals
+	// (prefixes, case) matter term by term and are covered by the pairwise phase above.
+	red := make([][]val, len(names))
+	for i, n := range names {
+		if p, ok := prio[n]; ok && len(p) > 0 {
+			red[i] = p
+		} else {
+			red[i] = cands[i]
+		}
+	}
+	for limit := 12; limit >= 2; limit-- {
+		total := 1.0
+		for i := range red {
+			if len(red[i]) > limit {
+				// keep the first `limit` (for strings: "", "q", then literals in order; for integers: spread)
+				if red[i][0].k == 's' {
+					red[i] = red[i][:limit]
+				} else {
+					var kept []val
+					step := float64(len(red[i])-1) / float64(limit-1)
+					for k := 0; k < limit; k++ {
+						kept = append(kept, red[i][int(float64(k)*step+0.5)])
+					}
+					red[i] = kept
+				}
+			}
+			total *= float64(len(red[i]))
+		}
+		if total <= 150000 {
+			break
+		}
+	}
+	total := 1.0
+	for i := range red {
+		total *= float64(len(red[i]))
+	}
+	if total <= 150000 {
+		saved := cands
+		cands = red
+		idx := make([]int, len(names))
+		for {
+			if !try(idx) {
+				return res
+			}
+			k := 0
+			for k < len(idx) {
+				idx[k]++
+				if idx[k] < len(red[k]) {
+					break
+				}
+				idx[k] = 0
+				k++
+			}
+			if k == len(idx) {
+				break
+			}
+		}
+		cands = saved
 	}
 	return res
 }
